@@ -66,7 +66,12 @@ func (m *memfs) step(op, p string) (int, bool) {
 
 func (m *memfs) ReadFile(p string) ([]byte, error) {
 	p = filepath.Clean(p)
-	if _, f := m.step("read", p); f {
+	if k, f := m.step("read", p); f {
+		if k > 0 {
+			// a read that fails in the middle: the bytes read so far come back together with the error (as ioutil.ReadFile does)
+			d := m.files[p]
+			return append([]byte{}, d[:len(d)/2]...), errIO
+		}
 		return nil, errIO
 	}
 	d, ok := m.files[p]
@@ -495,6 +500,9 @@ func TestCheck(t *testing.T) {
 		rec.Class("sweep:" + base.Format + "/" + base.Op)
 		for i, cl := range free.trace {
 			kinds := []int{0}
+			if cl.Op == "read" {
+				kinds = []int{0, 1}
+			}
 			if cl.Op == "write" {
 				kinds = []int{0, 1, 2, 3, 4}
 				if big {
